@@ -141,7 +141,11 @@ def ok_string(s, expression_capable=False):
     return True
 
 
+MULTILINE = [True]  # workloads that cut documents at line boundaries (C15) switch multi-line strings off
+
+
 def rand_string(r, expression_capable=False, minlen=None, maxlen=None, multiline_ok=True):
+    multiline_ok = multiline_ok and MULTILINE[0]
     for _ in range(50):
         k = r.random()
         if maxlen == 1:
